@@ -159,8 +159,13 @@ static int run_script(int self)
 		for (int a = 0; a < nact && !STOP; a++) {
 			uint32_t k = vh_below(r, hostile_time ? 10 : 12);
 			int x2 = (int)vh_below(r, (uint32_t)nf);
-			if (hostile_time && k < 6)
-				k = 9; /* mostly sleep */
+			if (hostile_time) {
+				/* mostly sleep; now and then the fibre (or another) is made runnable first, so that the
+				 * timeout is asked for by a fibre that already has a reason to run */
+				if (k == 4)
+					x2 = self;
+				k = k < 4 ? 9 : k < 6 ? 0 : k;
+			}
 			if (k < 3)
 				op_run(x2, "in:");
 			else if (k < 5 && !no_atomic)
